@@ -780,8 +780,9 @@ class Table(JupyterMixin):
                     and not (show_header and header_row)
                 ):
                     if leading:
+                        leading_row = _box.get_row(widths, "mid", edge=show_edge)
                         yield _Segment(
-                            _box.get_row(widths, "mid", edge=show_edge) * leading,
+                            "\n".join([leading_row] * leading),
                             border_style,
                         )
                     else:
